@@ -1049,6 +1049,17 @@ def extract(repo=None):
     flat = " ".join(body.split())
     if "j = parser.copy_token(token, pos)" not in flat or "parser.get_iss() >> d" not in flat or "(*this)[token.c_str()] = d" not in flat:
         fail("NameDouble.cxx", "read_raw does not read `name value` into the map")
+    body, _ = function_body(nd, "cxxNameDouble", "merge_redox", "NameDouble.cxx merge_redox")
+    flat = " ".join(body.split())
+    for need in ("for (cxxNameDouble::const_iterator sit = source.begin(); sit != source.end(); sit++)",
+                 'size_t pos = redox_name.find("(");', "elt_name = redox_name.substr(0, pos);",
+                 "if ((*this).find(elt_name) != (*this).end()) { (*this).erase((*this).find(elt_name)); }",
+                 "(*this)[redox_name] = sit->second;", 'substring.append(elt_name); substring.append("(");',
+                 "bool deleted = true; while (deleted) { deleted = false; cxxNameDouble::iterator current = (*this).begin(); "
+                 "for ( ; current != (*this).end(); current++) { if (current->first.find(substring) == 0) { (*this).erase(current); "
+                 "deleted = true; break; } } }", "(*this)[elt_name] = sit->second;"):
+        if need not in flat:
+            fail("NameDouble.cxx", "merge_redox no longer has the shape Model/RawTables.lean `mergeOne` was written from", need)
     # find_option itself: case-folded prefix match, first hit wins
     ps = preprocess(strip_comments((base / "common" / "Parser.cxx").read_text(errors="replace")), "Parser.cxx")
     body, _ = function_body(ps, "CParser", "find_option", "Parser.cxx find_option")
